@@ -405,6 +405,14 @@ static void families(unsigned long long& unit)
 		fams.push_back({"scaled_cubic_s" + mc::dec(sc), [sc](ld x) { return sc * (x * x * x - 2); }, 0, 3, {cbrtl(2.0L)}});
 		fams.push_back({"scaled_tanh_s" + mc::dec(sc), [sc](ld x) { return sc * (tanhl(x) - 0.3L); }, -5, 8, {atanhl(0.3L)}});
 	}
+	// brackets next to the ends of the double range (the sum of the two ends is not representable)
+	for(auto br : std::vector<std::pair<double, double>>{{1e308, 1.7e308}, {-1.7e308, -1e308}, {-1.7e308, 1.7e308}, {8.9e307, 9.1e307}, {-1.5e308, 1e300}})
+		for(double t : {0.3, 0.77})
+		{
+			ld root = (ld)br.first + t * ((ld)br.second - br.first);
+			fams.push_back({"lin_huge_t" + mc::dec(t), [root](ld x) { return (x - root) / 1e308L; }, br.first, br.second, {root}});
+			fams.push_back({"cubic_huge_t" + mc::dec(t), [root](ld x) { ld u = (x - root) / 1e308L; return u * u * u + 0.01L * u; }, br.first, br.second, {root}});
+		}
 	fams.push_back({"x3_minus_x", [](ld x) { return x * x * x - x; }, -1.5, 1.7, {-1, 0, 1}});
 	fams.push_back({"x3_minus_x_b", [](ld x) { return x * x * x - x; }, -3, 1.5, {-1, 0, 1}});
 	fams.push_back({"cos", [](ld x) { return cosl(x); }, 0, 8, {M_PIl / 2, 3 * M_PIl / 2, 5 * M_PIl / 2}});
